@@ -112,7 +112,15 @@ class C10(Check):
                 curve = Curve.create(wsb, name="ro_curve", vertices=np.asarray([[0.0, 0.0, 0.0], [1.0, 0.0, 0.0],
                                                                                   [2.0, 1.0, 0.0], [3.0, 1.0, 1.0]]))
                 extra_uids[str(curve.uid)] = "object"
+                curve_uid = curve.uid
                 del curve
+            # (geoh5py stores the implied segments at creation; other software leaves them out: the reader derives them)
+            import h5py
+
+            with h5py.File(path, "r+") as h5:
+                node = h5[list(h5)[0]]["Objects"]["{" + str(curve_uid) + "}"]
+                if "Cells" in node:
+                    del node["Cells"]
             res.label("file:with-curve-without-stored-segments")
         # the user's own Workspace object on that file: built with the default mode, closed again
         # (created while the file is complete, so that closing it writes nothing)
